@@ -38,6 +38,8 @@ def build(cfg):
     init = ()
     if cfg["init"] == "A":
         init = [lane_token(10 + r, lanes, gran, 0) for r in range(rows)]
+        if rows > 8:       # (the lane tags repeat every 8 rows: make every row distinct)
+            init = [(v ^ (r * 0x9E3779B1)) & ((1 << dw) - 1) for r, v in enumerate(init)]
     elif cfg["init"] == "B":
         init = [lane_token(20 + r, lanes, gran, 1) for r in range(max(1, rows - 1))]   # shorter than depth
     def form(image):
@@ -87,8 +89,9 @@ class Observer:
         if cfg["tokens"] >= 3:
             toks.append(lane_token(1, self.lanes, gran, 0))
         aw = comp.in_widths[ii["adr"]]
-        self._letters = [l for l in itertools.product(range(1 << aw), (0, 1), (0, 1), (0, 1),
-                                                      range(1 << self.lanes), toks)]
+        sels = cfg.get("sel_set") or range(1 << self.lanes)
+        adrs = cfg.get("adr_set") or range(1 << aw)
+        self._letters = [l for l in itertools.product(adrs, (0, 1), (0, 1), (0, 1), sels, toks)]
         self.lane_masks = [((1 << gran) - 1) << (k * gran) for k in range(self.lanes)]
 
     def letters(self, obs):
@@ -146,6 +149,14 @@ def configs(tier):
                     if quick and (granules > 4 or (rows == 4 and init == "B")):
                         continue
                     out.append(dict(dw=dw, gran=gran, rows=rows, writable=writable, init=init, tokens=tokens))
+    # eight lanes (64-bit data, byte granularity): select masks inside one half, in both halves, at both ends
+    out.append(dict(dw=64, gran=8, rows=1, writable=True, init="A", tokens=1, sel_set=[0, 0x01, 0x80, 0x81, 0x0F, 0xF0, 0x3C, 0xFF, 0x18]))
+    out.append(dict(dw=64, gran=16, rows=2, writable=True, init="zero", tokens=1, sel_set=[0, 1, 8, 9, 6, 15]))
+    # many rows: a read-only memory (no state but the acknowledge) with 32 and 1024 distinct rows, a writable one with 8
+    out.append(dict(dw=8, gran=8, rows=32, writable=False, init="A", tokens=1))
+    out.append(dict(dw=16, gran=16, rows=1024, writable=False, init="A", tokens=1,
+                    adr_set=[0, 1, 5, 16 + 5, 512 + 5, 528 + 5, 511, 512, 1023, 1023 - 16]))     # (addresses that differ in one or two bits)
+    out.append(dict(dw=8, gran=8, rows=8, writable=True, init="B", tokens=1))
     out.append(dict(dw=16, gran=8, rows=2, writable=True, init="zero", tokens=2, late_init=True))
     out.append(dict(dw=16, gran=8, rows=2, writable=True, init="A", tokens=2, late_init=1))
     out.append(dict(dw=8, gran=8, rows=4, writable=False, init="A", tokens=1, late_init=2))
